@@ -1,0 +1,7 @@
+//go:build !verif
+
+package templ
+
+import "bytes"
+
+func verifBytesPool(ev string, b *bytes.Buffer) {}
